@@ -104,6 +104,7 @@ type AlsoProp struct {
 	Labels  map[string]bool
 	NoPanic bool
 	Tokens  bool // the completion-token obligations (exactly-once completion or hand-over)
+	Calls   bool // the nocall / onlycalls obligations (which callees the function may reach)
 }
 
 type SpecFunc struct {
@@ -503,6 +504,8 @@ func (cs *Contracts) LoadContractFile(path, pkg string) error {
 					ap.NoPanic = true
 				} else if l == "tokens" {
 					ap.Tokens = true
+				} else if l == "calls" {
+					ap.Calls = true
 				} else {
 					ap.Labels[strings.TrimPrefix(l, "@")] = true
 				}
